@@ -75,7 +75,8 @@ ASSUMPTIONS = [
     "R3.5/R3.7/R3.9: helper methods are followed only inside class Director (self.<method>), two to three "
     "levels; a local closure used in a path condition must be a pure predicate (if/return only)",
     "R3.7: 'every plain assignment of the local' over-approximates the values that reach the call (flow-"
-    "insensitive); a local bound by anything else (loop target, augmented assignment) is an analysis error",
+    "insensitive); the target of a loop over a literal tuple/list may be any of its elements; a local bound by "
+    "anything else (other loop targets, augmented assignment) is an analysis error",
     "R3.10: the accepted spellings of 'stand-alone' (open_ended) are an enumerated list; an unknown "
     "spelling is an analysis error; one comment token per physical line (so extend/+=/= list(..) agree)",
 ]
@@ -108,6 +109,31 @@ ASSUMPTIONS += [
     "str/repr/len/isinstance do not hand an error on; the filter slot of the log is the attribute "
     "set_error_filter stores its argument in",
     "R3.22: a function reads a parameter iff its name is loaded somewhere in the function's body",
+]
+
+EXPLANATION += (
+    "  R3.23 (rules/c03_sibling_lines.py) agreement of the two sibling directive kinds on the lines a trailing "
+    "comment covers: the trailing (not open-ended) arm of Director._process_type and Director._process_disable "
+    "(plus whatever follows the split up to the end of the loop body / function) is executed symbolically path "
+    "by path - locals substituted, methods of the Director and module-level functions that register lines or "
+    "compute a value inlined with their arguments, conditional expressions forked, loops over literal tuples "
+    "unrolled, `a != b` / `a == b` tests on the path turned into (in)equalities of the line numbers, a test "
+    "repeated with the opposite polarity pruned - and the lines written by set_line(.., <the kind's polarity>) "
+    "on the kind's own line set are collected.  Every path that does not raise must cover the comment's own "
+    "line (R3.1's own-line instance is decided by the same execution), and whether it also covers the start "
+    "line of the enclosing range (`<param>.start_line`) may depend only on conditions over the error class the "
+    "directive names (the loop variable of _process_disable: today `error_name in _ALL_ADJUSTABLE_ERRORS`): two "
+    "paths that agree on those conditions must agree on the start line, so no test of the range's kind or of "
+    "the comment's position may guard one of the two writes.  `# type: ignore` names no error class, hence "
+    "must cover the start line on every path iff `# pytype: disable=` does for some class, and both must while "
+    "the Director moves function ends to `<range>.start_line` (adjust_end in the dispatch loop: the "
+    "implicit-return error is re-reported there).  Blind spots of R3.23: that the start line is the *right* "
+    "line for a given error (R3.7 reports the over-approximation as D16), line sets written through an alias "
+    "handed to a function outside directors.py, registrations placed before the open_ended split.")
+ASSUMPTIONS += [
+    "R3.23: a condition counts as 'about the error class' iff the only local it mentions is the loop variable "
+    "over `values`; helper calls are inlined up to six levels, generators and *args/**kwargs helpers are an "
+    "analysis error; a `for` on the way of a trailing directive must iterate over a literal tuple/list",
 ]
 
 DIR = "pytype/directors/directors.py"
@@ -273,9 +299,16 @@ def r3_1(ctx):
   for qual in _PROCS:
     fn, st, open_arm, trail, recv, memb, lv = _arms(mod, qual)
     for arm, meth, tag in ((trail, "set_line", "own-line"), (open_arm, "start_range", "open-ended-range")):
-      todo = [ev for ev, how in _paths(arm) if how != "raise"]
-      missing = [[src(e[1]) for e in ev if e[0] == "cond"] for ev in todo
-                 if not _registers(ctx, fn, ev, meth, recv, memb)]
+      if tag == "own-line":
+        # path-sensitive execution shared with R3.23 (helpers inlined, literal loops unrolled, equalities
+        # between line numbers taken from the whole path condition)
+        from rules import c03_sibling_lines as sib
+        todo = sib._trailing_paths(ctx, mod, qual)[2]
+        missing = [[t for t, _ in p["other"]] + sorted(p["cls"]) for p in todo if not p["own"]]
+      else:
+        todo = [ev for ev, how in _paths(arm) if how != "raise"]
+        missing = [[src(e[1]) for e in ev if e[0] == "cond"] for ev in todo
+                   if not _registers(ctx, fn, ev, meth, recv, memb)]
       ctx.check(not missing, f"{qual}:{tag}", DIR, st.lineno,
                 f"a path through the {tag} arm (conditions {missing[:1]}) does not call "
                 f"{recv}.{meth}(line, {memb})", {"paths": len(todo), "receiver": recv})
@@ -317,7 +350,11 @@ def _line_values(mod, cls, fn, node, depth=0):
                  and not isinstance(n.ctx, ast.Load))
     if stores == 0:
       return {node.id}
-    if stores != len(vals):
+    # target of a loop over a literal tuple/list: any of its elements
+    loops = [n for n in walk_no_nested(fn) if isinstance(n, ast.For) and dotted(n.target) == node.id
+             and isinstance(n.iter, (ast.Tuple, ast.List)) and not any(isinstance(e, ast.Starred) for e in n.iter.elts)]
+    vals += [e for n in loops for e in n.iter.elts]
+    if stores != len(vals) - sum(len(n.iter.elts) - 1 for n in loops):
       raise AnalysisError(f"{fn.name}: local {node.id} is bound by something other than a plain assignment")
     return set().union(*(_line_values(mod, cls, fn, v, depth + 1) for v in vals))
   if isinstance(node, ast.Call) and isinstance(node.func, ast.Attribute) and dotted(node.func.value) == "self" \
@@ -389,45 +426,55 @@ def r3_7(ctx):
     for c in calls_in(fn):
       if not _is_reg(c):
         continue
-      a, m = _reg_args(ctx, c)
+      a0, m = _reg_args(ctx, c)
       got = _resolve(fn, c.func.value)
-      anode = ast.parse(a, mode="eval").body
-      vals = _line_values(mod, "Director", fn, anode)
-      own = vals == {_OWN} or (a.isidentifier() and any(_eq_test(t, p, a) for t, p in _guards(mod, c)))
-      # the line adjustment (the D16 mechanism: own line or the start line of the enclosing range) is keyed
-      # final_line whatever the local is called and whether a helper method or inline code computes it
-      if vals <= {_OWN, _START} and _START in vals:
-        canon = "final_line"
-      elif own or not a.isidentifier():
-        canon = a
-      else:
-        canon = f"{a}={'|'.join(sorted(vals))}"
-      if _START in vals:
-        # where the adjusted line comes from: a helper method of the Director (one instance per helper)
-        # or inline code (one per directive kind)
-        helpers = sorted({k.func.attr for v in [anode] + [n.value for n in walk_no_nested(fn)
-                          if isinstance(n, ast.Assign)] for k in calls_in(v)
-                          if isinstance(k.func, ast.Attribute) and dotted(k.func.value) == "self"
-                          and k.func.attr in mod.methods("Director")
-                          and _START in _line_values(mod, "Director", fn, k)})
-        for key, line in [(f"Director.{h}:returns", mod.methods("Director")[h].lineno) for h in helpers] or [
-            (f"{qual}:adjusted-line", c.lineno)]:
-          if key not in seen:
-            seen.add(key)
-            ctx.check(vals <= {_OWN, _START}, key, DIR, line,
-                      f"the adjusted line is one of {sorted(vals)}; only the own line or the range start line "
-                      "are expected", {"returns": sorted(vals)})
-      why = []
-      if got != recv:
-        why.append(f"writes line set {got}, expected {recv}")
-      if m != memb:
-        why.append(f"membership {m}, expected {memb}")
-      if not own:
-        why.append(f"registers line `{a}` (one of {sorted(vals)}), which is not the comment's own line")
-      if c.func.attr == "start_range" and id(c) not in opens:
-        why.append("starts a range for a trailing (not open-ended) directive")
-      ctx.check(not why, f"{qual}:{c.func.attr}({canon})" + ("" if got == recv else f"@{got}"), DIR,
-                c.lineno, "; ".join(why), {"receiver": got, "line": a, "values": sorted(vals), "membership": m})
+      # the target of a loop over a literal tuple stands for one registration per element
+      loops = [n for n in walk_no_nested(fn) if isinstance(n, ast.For) and dotted(n.target) == a0
+               and isinstance(n.iter, (ast.Tuple, ast.List))
+               and not any(isinstance(e, ast.Starred) for e in n.iter.elts)]
+      for a in ([src(e) for e in loops[0].iter.elts] if len(loops) == 1 else [a0]):
+        _r3_7_call(ctx, mod, qual, fn, c, a, m, got, recv, memb, opens, seen)
+
+
+def _r3_7_call(ctx, mod, qual, fn, c, a, m, got, recv, memb, opens, seen):
+  """R3.7 for one registration call `c` with line argument `a`."""
+  anode = ast.parse(a, mode="eval").body
+  vals = _line_values(mod, "Director", fn, anode)
+  own = vals == {_OWN} or (a.isidentifier() and any(_eq_test(t, p, a) for t, p in _guards(mod, c)))
+  # the line adjustment (the D16 mechanism: own line or the start line of the enclosing range) is keyed
+  # final_line whatever the local is called and whether a helper method or inline code computes it
+  if vals <= {_OWN, _START} and _START in vals:
+    canon = "final_line"
+  elif own or not a.isidentifier():
+    canon = a
+  else:
+    canon = f"{a}={'|'.join(sorted(vals))}"
+  if _START in vals:
+    # where the adjusted line comes from: a helper method of the Director (one instance per helper)
+    # or inline code (one per directive kind)
+    helpers = sorted({k.func.attr for v in [anode] + [n.value for n in walk_no_nested(fn)
+                      if isinstance(n, ast.Assign)] for k in calls_in(v)
+                      if isinstance(k.func, ast.Attribute) and dotted(k.func.value) == "self"
+                      and k.func.attr in mod.methods("Director")
+                      and _START in _line_values(mod, "Director", fn, k)})
+    for key, line in [(f"Director.{h}:returns", mod.methods("Director")[h].lineno) for h in helpers] or [
+        (f"{qual}:adjusted-line", c.lineno)]:
+      if key not in seen:
+        seen.add(key)
+        ctx.check(vals <= {_OWN, _START}, key, DIR, line,
+                  f"the adjusted line is one of {sorted(vals)}; only the own line or the range start line "
+                  "are expected", {"returns": sorted(vals)})
+  why = []
+  if got != recv:
+    why.append(f"writes line set {got}, expected {recv}")
+  if m != memb:
+    why.append(f"membership {m}, expected {memb}")
+  if not own:
+    why.append(f"registers line `{a}` (one of {sorted(vals)}), which is not the comment's own line")
+  if c.func.attr == "start_range" and id(c) not in opens:
+    why.append("starts a range for a trailing (not open-ended) directive")
+  ctx.check(not why, f"{qual}:{c.func.attr}({canon})" + ("" if got == recv else f"@{got}"), DIR,
+            c.lineno, "; ".join(why), {"receiver": got, "line": a, "values": sorted(vals), "membership": m})
 
 
 _MUT = {"append", "extend", "insert", "remove", "pop", "clear", "sort", "reverse",
